@@ -88,13 +88,13 @@ func derefNamed(t types.Type) (*types.Named, bool) {
 type lockWalker struct {
 	c          *ctx
 	stateTypes map[*types.Named]bool // party temp data / message store types
-	rounds  map[*types.Named]bool // tss.Round implementations of the module
-	partyI  *types.Interface
-	roundI  *types.Interface
-	impls   map[string][]*ssa.Function // interface method full name → implementations
-	visited map[string]bool
-	viol    []string
-	nCalls  int
+	rounds     map[*types.Named]bool // tss.Round implementations of the module
+	partyI     *types.Interface
+	roundI     *types.Interface
+	impls      map[string][]*ssa.Function // interface method full name → implementations
+	visited    map[string]bool
+	viol       []string
+	nCalls     int
 }
 
 func (w *lockWalker) isRoundCode(f *ssa.Function) bool {
